@@ -37,6 +37,7 @@ VERIF_MSGS = [
     (re.compile(r"^cannot show invariant|^failed to|^index out of bounds"), "assert"),
 ]
 UNDECIDED_MSGS = [re.compile(r"[Rr]esource limit|rlimit"), re.compile(r"timed? ?out")]
+INHERIT = {}
 IMPLICIT_KINDS = {"overflow", "divzero", "shift", "pre-implicit", "panic", "termination", "assert-src", "pre-call"}
 
 
@@ -227,6 +228,13 @@ def _parse_diagnostics(ur, unit, stderr, gen, gen_path, segs, fnprops, seen, sin
         # assertions the unmasking pass below finds the clauses behind them precisely; an invariant cannot be dropped that way.)
         if ob["kind"] in ("inv-entry", "inv-step", "inv") and f is not None and f["props"]:
             props = list(dict.fromkeys(list(props) + [x for x in f["props"].split(",") if x]))
+        # a callee inherits the properties of the labelled functions that call it directly (tools/propclosure.py): their proofs use this
+        # function's contract, so a failure here is reported under those properties too (only in units that are run for them anyway)
+        if f is not None and INHERIT:
+            inh = INHERIT.get((f.get("file"), ob["fn"].split("@")[0]))
+            if inh:
+                props = list(dict.fromkeys(list(props) + sorted(inh)))
+                ob["inherited_props"] = sorted(inh)
         ob["props"] = props
         if ob["name"] in seen:
             if ob.get("exits"):
@@ -425,6 +433,16 @@ def decide(prop, tier, seed):
     import kani_run
     t0 = time.time()
     units = units_for(prop)
+    global INHERIT
+    try:
+        import propclosure
+        rd_ = ready()
+        os.makedirs(WORK, exist_ok=True)
+        INHERIT = propclosure.compute(REPO, WORK, rd_["units"] if rd_ else sorted(os.listdir(os.path.join(VERIF, "units"))))["inherited"]
+        INHERIT = {k: set(v) for k, v in INHERIT.items()}
+    except Exception as e:  # never let the refinement break a check
+        INHERIT = {}
+        print(f"NOTE: property inheritance not computed ({e})")
     known = load_known()
     kf = [k for k in known["findings"] if k["property"] == prop]
     kf_obl = {o: k for k in kf for o in k["obligations"]}
